@@ -42,12 +42,17 @@ def cases(draw):
                     "clustering": draw(st.booleans()), "metric": metric, 
                     "mode": draw(st.sampled_from(["vector", "scalar", "blobs", "blobs_f4", "blobs_int"])), "zero": draw(st.booleans()), "d": d,
                     "boundary": draw(st.sampled_from(["none", "none", "periodic", "reflective"]))},
-            "c": sign * 10.0 ** draw(st.floats(-3.0, 3.0)), "seed": draw(st.integers(0, 2**31 - 3)), "narrow": narrow}
+            "c": sign * 10.0 ** draw(st.floats(-3.0, 3.0)), "seed": draw(st.integers(0, 2**31 - 3)), "narrow": narrow,
+            # one case in eight: a plateau likelihood (flat on its support; with a zero region: a top-hat) - every finite log-likelihood
+            # is bit-for-bit the same number
+            "plateau": draw(st.integers(0, 7)) == 0}
 
 
-def one_run(row, seed, shift, narrow=1.0):
+def one_run(row, seed, shift, narrow=1.0, plateau=False):
     d = row["d"]
     spec = simple_target_spec(np.random.default_rng(seed), d, row["mode"], zero=row["zero"])
+    if plateau:
+        spec["lkind"] = ["flat"] * d
     spec["width"] = [w * narrow for w in spec["width"]]  # narrow likelihoods: many tiny temperature steps, bisections end on the beta tolerance
     spec["shift"] = shift
     t = Target.from_spec(spec)
@@ -138,8 +143,8 @@ def execute(case):
     res = None
     for attempt in (0, 1):
         seed = int(case["seed"]) + attempt
-        A = one_run(row, seed, 0.0, case.get("narrow", 1.0))
-        B = one_run(row, seed, c, case.get("narrow", 1.0))
+        A = one_run(row, seed, 0.0, case.get("narrow", 1.0), case.get("plateau", False))
+        B = one_run(row, seed, c, case.get("narrow", 1.0), case.get("plateau", False))
         msg, kind = compare(A, B, c)
         if msg is None:
             res = A
@@ -152,7 +157,7 @@ def execute(case):
     n_anneal = int(np.sum(res["beta"] > 0))
     return {"nontrivial": n_anneal >= 3 and abs(c) >= 1,
             "classes": ["kernel:" + row["kernel"], "clustering" if row["clustering"] else "noclustering", "metric:" + row["metric"],
-                        "|c|>=1" if abs(c) >= 1 else "|c|<1", "zero" if row["zero"] else "nozero"]
+                        "|c|>=1" if abs(c) >= 1 else "|c|<1", "zero" if row["zero"] else "nozero"] + (["plateau"] if case.get("plateau") else [])
                        + (["bisection-ended-on-tolerance"] if res.get("tol_ended") else []),
             "sample": {"row": row, "c": c, "iterations": res["T"], "final_logz": res["final"]}}
 
